@@ -20,7 +20,8 @@ from pipeline import Case
 from recipes import gen_ctx, render_ctx
 from shrink import prog_control_in_operand, shrink, children_paths
 
-PROOF_MODULES = ["PyTealV.Proofs.C03Opt"]
+PROOF_MODULES = ["PyTealV.Proofs.C03OptFrameTac", "PyTealV.Proofs.C03OptFrame1", "PyTealV.Proofs.C03OptFrame2", "PyTealV.Proofs.C03OptFrame3",
+                 "PyTealV.Proofs.C03OptFrame4", "PyTealV.Proofs.C03OptFrame5", "PyTealV.Proofs.C03OptFrame", "PyTealV.Proofs.C03OptLemmas", "PyTealV.Proofs.C03Opt"]
 TRUSTED = [
     "Lean 4 kernel; axioms propext, Classical.choice, Quot.sound only",
     "AVM spec lean/PyTealV/Avm (both programs of a pair run on the same spec, so opcode semantics cancel out except for control and stack)",
@@ -96,7 +97,7 @@ def dead_store_deleted(teal_a: str, teal_b: str) -> bool:
 
 
 def run(tier: str) -> int:
-    rep = Report("C03", tier, level="exploration")
+    rep = Report("C03", tier, level="proof")
     mods = existing(PROOF_MODULES)
     st = check_proofs(mods) if mods else None
     r = rng("c03")
